@@ -196,6 +196,13 @@ fn poll_sub(
     }
 }
 
+struct SelfTask {
+    sub: std::sync::Mutex<Option<Subscriber<Elem>>>,
+}
+impl std::task::Wake for SelfTask {
+    fn wake(self: Arc<Self>) {}
+}
+
 pub fn run_line(line: &str, out: &mut String) {
     // fresh ledger per case
     LIVE.with(|l| l.borrow_mut().clear());
@@ -216,6 +223,11 @@ pub fn run_line(line: &str, out: &mut String) {
         let mut uniq: Option<Observable<Elem>> = Some(Observable::new(Elem::new(0)));
         let mut shared: Vec<SharedObservable<Elem>> = vec![];
         let mut osubs: Vec<Option<Subscriber<Elem>>> = vec![];
+        let mut oweaks: Vec<eyeball::WeakObservable<Elem>> = vec![];
+        // subscribers owned by their own waker (the usual shape of an async task): the observable's
+        // waker list then keeps the subscriber - and through it the state and the value - alive until
+        // the list is drained by an update or by the close on the last owner's drop
+        let mut tasks: Vec<Arc<SelfTask>> = vec![];
         let cw = Arc::new(CountWaker(AtomicUsize::new(0)));
         let waker = Waker::from(cw);
         let mut i = 0;
@@ -454,6 +466,39 @@ pub fn run_line(line: &str, out: &mut String) {
                     let k = args(arg)[0];
                     if k < osubs.len() {
                         osubs[k] = None;
+                    }
+                }
+                "oweak" => {
+                    if let Some(s) = shared.first() {
+                        oweaks.push(s.downgrade());
+                    }
+                }
+                "odropweak" => {
+                    oweaks.pop();
+                }
+                "oupgrade" => {
+                    if let Some(w) = oweaks.first() {
+                        if let Some(o) = w.upgrade() {
+                            shared.push(o);
+                        }
+                    }
+                }
+                "otask" => {
+                    let k = args(arg)[0];
+                    if let Some(sub) = osubs.get_mut(k).and_then(|s| s.take()) {
+                        let t = Arc::new(SelfTask { sub: std::sync::Mutex::new(Some(sub)) });
+                        let w = Waker::from(t.clone());
+                        let mut cx = Context::from_waker(&w);
+                        if let Some(s) = t.sub.lock().unwrap().as_mut() {
+                            if let Poll::Ready(Some(e)) = Pin::new(s).poll_next(&mut cx) {
+                                e.read();
+                            }
+                        }
+                        // half of the tasks are "detached": the harness keeps no handle, only the
+                        // registered waker (if any) keeps the task alive
+                        if k % 2 == 0 {
+                            tasks.push(t);
+                        }
                     }
                 }
                 _ => panic!("bad op {op}"),
